@@ -36,6 +36,7 @@ PATH.binop = _path_binop
 
 def env(b):
     SELF = Obj('self', path=sym.const(PATH, 'repo_path'))
+    SELF._class_source = (LOCAL_PY, 'Local')          # helpers extracted from the adapter's methods are the real methods, inlined
     b.bind('self', SELF)
     b.me = SELF
     b.sym('name', STR)
